@@ -121,6 +121,7 @@ class World:
         shutil.rmtree(self.root, ignore_errors=True)
         os.makedirs(self.root)
         for name, text in self.spec["files"].items():
+            os.makedirs(os.path.dirname(os.path.join(self.root, name)), exist_ok=True)
             with open(os.path.join(self.root, name), "w", newline="") as f:
                 f.write(text)
         if self.root not in sys.path:
@@ -129,11 +130,14 @@ class World:
 
     def texts(self):
         out = {}
-        for name in sorted(os.listdir(self.root)):
-            if name.endswith(".py"):
-                with open(os.path.join(self.root, name), newline="") as f:
-                    out[name] = f.read()
-        return out
+        for dirpath, dirnames, filenames in os.walk(self.root):
+            dirnames.sort()
+            for fn in sorted(filenames):
+                if fn.endswith(".py"):
+                    full = os.path.join(dirpath, fn)
+                    with open(full, newline="") as f:
+                        out[os.path.relpath(full, self.root)] = f.read()
+        return dict(sorted(out.items()))
 
     # ------------------------------------------------------------------ child side
     def child_main(self, rfd, wfd):
@@ -189,7 +193,7 @@ class World:
                         changeset = changeset[k:] + changeset[:k]
                         if k:
                             world.sim["alt_fired"] += 1
-                    rec = {"file": os.path.basename(filename), "proposed": len(changeset), "applicable": len(applicable)}
+                    rec = {"file": world.rel(filename), "proposed": len(changeset), "applicable": len(applicable)}
                     if changeset:
                         c = changeset[0]
                         rec["first"] = {"del": sorted(c.linenos_to_delete), "add": c.lines_to_add, "error": c.error_str}
@@ -215,12 +219,18 @@ class World:
         nv.open = sim_open
         return SimVisitor
 
+    def rel(self, filename):
+        filename = str(filename)
+        if filename.startswith(self.root + os.sep):
+            return os.path.relpath(filename, self.root)
+        return os.path.basename(filename)
+
     def render_failures(self, failures):
         out = []
         for f in failures or []:
             code = f.get("code")
             out.append({
-                "file": os.path.basename(str(f.get("filename", ""))),
+                "file": self.rel(str(f.get("filename", ""))),
                 "line": f.get("lineno"),
                 "col": f.get("col_offset"),
                 "code": getattr(code, "name", None),
